@@ -296,3 +296,45 @@ theorem C01_valid_marking_defined (mk : Nat → Option String → J → String)
   rw [e] at this
   exact hne (List.length_eq_zero_iff.mp this.symm)
 
+/-- **C01 for valid markings, stated without reference to the marked tree.** Plain claims `ms`
+(conformant, no digests, not using `_sd_alg` / `cnf`), a non-empty list of addresses each reaching an
+existing member or element (index tokens canonical; member names unrestricted, `"01"` included),
+descendants before ancestors, no repeats; a digest function that never repeats a value across
+draws.  Then marking is defined, and for *the* disclosures `ds` it makes — with the runtime
+assumptions of `C01_end_to_end` about decoys, `cnf`, the JWT library and the disclosure strings —
+the holder accepts the serialised token in any order of the disclosures, returns exactly the
+original claims (plus `cnf`), and reports, up to order, exactly the path strings the issuer was
+given. -/
+theorem C01_valid_marking_round_trip (rt : Rt) (mk : Nat → Option String → J → String)
+    (hmk : ∀ i j k v k' v', mk i k v = mk j k' v' → i = j)
+    (addr : List (List String × String)) (ms : MMems)
+    (wf : (MJ.obj ms none).WF) (hplain : (MJ.obj ms none).digests = [])
+    (hk1 : "_sd_alg" ∉ ms.keys) (hk2 : "cnf" ∉ ms.keys)
+    (haddr : ∀ a ∈ addr, Addressable (.obj ms none) a) (hnf : NestedFirst addr) (hne : addr ≠ []) :
+    ∃ Tn ds, markAll mk 0 addr (.obj ms none) = some (Tn, ds) ∧ ds.length = addr.length ∧
+      ∀ (decoys : Option (List String)) (cnf : Option MJ) (jwt : String) (header : J) (strs : List String),
+        (∀ l, decoys = some l → l.Nodup ∧ (∀ g ∈ l, g ∉ Tn.digests)) →
+        (∀ X, cnf = some X → X.WF ∧ X.digests = []) →
+        (∀ payload dsrc,
+          encode (MJ.obj ms none).payload (addr.map (fun a => renderPath a.1 a.2)) mk decoys
+            (cnf.map (·.payload)) = .ok (payload, dsrc) →
+          rt.jwtDecode jwt = .ok (header, payload)) →
+        (∀ s ∈ strs, ∃ e ∈ ds, fromBase64 (rt.env "sha-256") s = .ok ⟨s, e.digest, e.key, e.value⟩) →
+        (strs.map (rt.hash "sha-256")).Nodup →
+        (∀ e ∈ ds, ∃ s ∈ strs, rt.hash "sha-256" s = e.digest) →
+        '~' ∉ jwt.toList → (∀ s ∈ strs, '~' ∉ s.toList) →
+        ∃ ps, Holder.verify rt (assemble jwt strs) = .ok (header, expectedClaims ms cnf, ps) ∧
+          (ps.map (·.1)).Perm (addr.map (fun a => renderPath a.1 a.2)) := by
+  obtain ⟨Tn, ds, h, hdsne⟩ := C01_valid_marking_defined mk hmk addr ms hplain haddr hnf hne
+  refine ⟨Tn, ds, h, markAll_length mk addr 0 _ Tn ds h, ?_⟩
+  intro decoys cnf jwt header strs hdec hX hsig hstr hnd hall hj hs
+  obtain ⟨ps, hv, hperm, _⟩ := C01_end_to_end rt mk (addr.map (fun a => renderPath a.1 a.2)) addr ms Tn ds
+    decoys cnf jwt header strs wf hplain hk1 hk2 (parsedAll_render addr) h hdsne hdec hX hsig hstr hnd hall hj hs
+  refine ⟨ps, hv, ?_⟩
+  have hm0 := (Impl.no_digests _ wf hplain).1
+  have h1 := issued_pointers_r mk addr (.obj ms none) Tn ds hm0 haddr hnf h
+  have h2 : (ps.map (·.1)).Perm ((Tn.paths "").map (·.1)) := by
+    have := hperm.map (·.1)
+    simpa [List.map_map, Function.comp_def] using this
+  exact h2.trans h1
+
